@@ -264,7 +264,8 @@ fn compile_expr(e: &Expr, mut scope: &mut Scope) -> Result<(Vec<Instr>, Reg)> {
                         res: res.clone(),
                         op: match *o {
                             Op::And => Op::Mul,
-                            Op::Or => Op::Add,
+                            // max, not add: the result of a boolean operator must stay 0 or 1
+                            Op::Or => Op::Max,
                             _ => unreachable!(),
                         },
                         left,
